@@ -172,7 +172,9 @@ func (s *SSL) readCertificateFile(filename string) (*x509.Certificate, error) {
 	return nil, fmt.Errorf("file '%s' does not have a PEM formatted certificate", filename)
 }
 
-func (s *SSL) buildCertFromCrtAndKey(fileName string, crt, key, ca []byte) (*sslCert, error) {
+// validateCrtAndKey checks whether crt, key and the optional ca can be used
+// as a certificate, returning the first certificate found in crt.
+func (s *SSL) validateCrtAndKey(crt, key, ca []byte) (*x509.Certificate, error) {
 	x509crt, err := s.checkValidCertPEM(crt)
 	if err != nil {
 		return nil, err
@@ -183,14 +185,7 @@ func (s *SSL) buildCertFromCrtAndKey(fileName string, crt, key, ca []byte) (*ssl
 	if _, err := tls.X509KeyPair(crt, key); err != nil {
 		return nil, err
 	}
-	var caFileName string
 	if len(ca) > 0 {
-		// common/legacy implementation adds ca in the crt+key file
-		// if the ca.crt key is configured in the same secret -
-		// cannot be used e.g. for mTLS.
-		//
-		// https://github.com/jcmoraisjr/haproxy-ingress/blob/release-0.13/pkg/common/net/ssl/ssl.go#L138
-		//
 		if _, err := s.checkValidCertPEM(ca); err != nil {
 			return nil, err
 		}
@@ -205,6 +200,23 @@ func (s *SSL) buildCertFromCrtAndKey(fileName string, crt, key, ca []byte) (*ssl
 		if err != nil {
 			return nil, fmt.Errorf("failed to verify certificate chain: %w", err)
 		}
+	}
+	return x509crt, nil
+}
+
+func (s *SSL) buildCertFromCrtAndKey(fileName string, crt, key, ca []byte) (*sslCert, error) {
+	x509crt, err := s.validateCrtAndKey(crt, key, ca)
+	if err != nil {
+		return nil, err
+	}
+	var caFileName string
+	if len(ca) > 0 {
+		// common/legacy implementation adds ca in the crt+key file
+		// if the ca.crt key is configured in the same secret -
+		// cannot be used e.g. for mTLS.
+		//
+		// https://github.com/jcmoraisjr/haproxy-ingress/blob/release-0.13/pkg/common/net/ssl/ssl.go#L138
+		//
 		caFileName = fileName
 		ca = append(ca, '\n')
 		crt = append(crt, ca...)
